@@ -422,6 +422,72 @@ class World:
                 'trace': self.trace, 'ops': self.ops, 'done': job.done,
                 'worker_clean': 'current job' not in b.status and len(b.tasks_done) >= before}
 
+    def snapshot(self):
+        """Copy of the remote repository and of the mock host state (for re-running a job from the same state)."""
+        import copy
+        d = tempfile.mkdtemp(prefix='snap_', dir=self.scratch)
+        shutil.copytree(self.url, os.path.join(d, 'bare'), symlinks=True)
+        m = self.mock
+        memo = {}
+        state = {
+            'dir': d,
+            'prs': [self._copy_obj(o) for o in m.PullRequest.items],
+            'comments': [self._copy_obj(o) for o in m.Comment.items],
+            'revisions': dict(m.Repository.revisions),
+        }
+        return state
+
+    @staticmethod
+    def _copy_obj(o):
+        import copy
+        keep = {}
+        for k, v in o.__dict__.items():
+            if k in ('repo', 'client'):
+                keep[k] = v                      # shared infrastructure objects
+            elif k in ('source', 'destination'):
+                keep[k] = {'branch': dict(v['branch']), 'commit': v['commit'], 'repository': v['repository']}
+            else:
+                keep[k] = copy.deepcopy(v)
+        return (o, keep)
+
+    def restore(self, state):
+        m = self.mock
+        for f in os.listdir(self.url):
+            p = os.path.join(self.url, f)
+            shutil.rmtree(p) if os.path.isdir(p) and not os.path.islink(p) else os.remove(p)
+        src = os.path.join(state['dir'], 'bare')
+        for f in os.listdir(src):
+            p = os.path.join(src, f)
+            if os.path.isdir(p):
+                shutil.copytree(p, os.path.join(self.url, f), symlinks=True)
+            else:
+                shutil.copy2(p, os.path.join(self.url, f))
+        import copy
+        items = []
+        for o, keep in state['prs']:
+            o.__dict__.clear()
+            o.__dict__.update({k: (v if k in ('repo', 'client', 'source', 'destination') else copy.deepcopy(v))
+                               for k, v in keep.items()})
+            for k in ('source', 'destination'):
+                o.__dict__[k] = {'branch': dict(keep[k]['branch']), 'commit': keep[k]['commit'],
+                                 'repository': keep[k]['repository']}
+            items.append(o)
+        m.PullRequest.items = items
+        citems = []
+        for o, keep in state['comments']:
+            o.__dict__.clear()
+            o.__dict__.update({k: (v if k in ('repo', 'client') else copy.deepcopy(v)) for k, v in keep.items()})
+            citems.append(o)
+        m.Comment.items = citems
+        m.Repository.revisions.clear()
+        m.Repository.revisions.update(state['revisions'])
+        while not self.berte.task_queue.empty():
+            self.berte.task_queue.get()
+            self.berte.task_queue.task_done()
+
+    def drop_snapshot(self, state):
+        shutil.rmtree(state['dir'], ignore_errors=True)
+
     def local_graph(self, shas, berte=None):
         """sha -> parents for the given commits and all their ancestors, read from the job's local clone
         (objects of deleted temporary branches are still in its object database)."""
@@ -454,6 +520,17 @@ class World:
 
 
 # ---------------------------------------------------------------------------------- recording / faults
+
+def _mentions(kind, detail, ref, world):
+    """Does this push try to update `ref`?  (named push: it is listed; push of all heads: it differs locally)"""
+    if ref is None:
+        return False
+    if kind == 'push':
+        return ref in [n.lstrip(':') for n in detail]
+    cur = getattr(world, '_cur_push_all', None)
+    local = (cur or {}).get('local') or {}
+    return ref in local and world.refs().get(ref) != local[ref]
+
 
 class InjectedCrash(BaseException):
     """Process death: nothing in Bert-E may catch it (BaseException), every later operation is skipped."""
@@ -505,8 +582,11 @@ class Recorder:
             if kind in ('push', 'push_all', 'rawpush'):
                 op['remote_before'] = w.refs()
             try:
-                if f and f.get('at') == idx and f.get('mode') == 'reject':
+                if f and f.get('mode') == 'reject' and idx >= f.get('at', 0) and kind in ('push', 'push_all') \
+                        and _mentions(kind, detail, f.get('ref'), w):
+                    # the server refuses this ref for the rest of the job (branch protection / concurrent update)
                     op['rejected'] = f.get('ref')
+                    f['fired'] = True
                     res = run(reject=f.get('ref'))
                 else:
                     res = run(reject=None)
